@@ -279,7 +279,7 @@ NONTRIVIAL_RULE["C03"] = "non-trivial: n>=3 with a multi-edge or cycle, winnable
 PROPS["C03"] = {"generate": c03_generate, "strata": algo_strata,
                 "nontrivial": lambda rec: algo_nontrivial(rec) and isinstance(rec["lean"], dict) and rec["lean"].get("rank") not in (-1, "ERR"),
                 "rule": "rank()/r() in both modes on generated connected multigraphs, divisors from all four degree bands, worker pool real (fails to pickle -> fallback) / stubbed to fail at once / replaced by a thread pool (pool path exercised)",
-                "theorems": []}
+                "theorems": ["rank_unique", "rank_linEq_invariant", "good_degrees_downward_closed", "rank_plain_exact", "rank_optimized_exact_low", "rank_optimized_band_partial"]}
 
 
 # ---- C04
@@ -294,7 +294,7 @@ def c04_generate(rng, tier):
 NONTRIVIAL_RULE["C04"] = "non-trivial: n>=3 with a multi-edge or cycle"
 PROPS["C04"] = {"generate": c04_generate, "strata": algo_strata, "nontrivial": algo_nontrivial,
                 "rule": "gonality() with/without strategies and cut-offs 0..n+1; single games and strategy tests on placements (also non-effective, wrong chip count, unknown opponent vertex); per-sink Dhar strategy tests and minimal-strategy search for every sink",
-                "theorems": []}
+                "theorems": ["playGame_exact", "strategyWorks_exact", "winnable_mono", "all_ones_wins", "computeGonality_exact", "gonality_unique", "dharTestStrategy_exact"]}
 
 
 # ---- C07
@@ -306,7 +306,7 @@ NONTRIVIAL_RULE["C07"] = "non-trivial: n>=3 with a multi-edge or cycle and the t
 PROPS["C07"] = {"generate": c07_generate, "strata": algo_strata,
                 "nontrivial": lambda rec: algo_nontrivial(rec) and rec["scn"]["D1"] != rec["scn"]["D2"],
                 "rule": "pairs: identical / related by a random integer script / same degree other class / different degree; second divisor on the same graph object, on a separately built equal copy, or on another multigraph",
-                "theorems": []}
+                "theorems": ["linEquiv_exact", "linEq_is_equivalence", "linEq_invariant_under_moves", "not_linEq_of_deg_ne"]}
 
 
 # ---- C08
@@ -396,7 +396,7 @@ NONTRIVIAL_RULE["C14"] = "non-trivial: n>=3 with a multi-edge or cycle and at le
 PROPS["C14"] = {"generate": c14_generate, "strata": algo_strata,
                 "nontrivial": lambda rec: algo_nontrivial(rec) and any(x < 0 for x in rec["scn"]["deg"]),
                 "rule": "GreedyAlgorithm.play on generated connected multigraphs x divisors (debt magnitudes up to 12 so that the 10|V| budget is straddled), each case under 3 (quick) / 16 (thorough) PYTHONHASHSEED values so that the visiting order varies; the certificate is re-checked through the implementation's own CFLaplacian.apply",
-                "theorems": []}
+                "theorems": ["success_certificate", "order_irrelevant", "failure_only_if_unwinnable_or_capped", "winnable_has_clearing_script"]}
 
 
 # ---- C17
@@ -500,4 +500,78 @@ def c17_group_judge(recs):
 NONTRIVIAL_RULE["C17"] = "non-trivial: n>=3 with a multi-edge or cycle"
 PROPS["C17"] = {"generate": c17_generate, "group_judge": c17_group_judge, "strata": algo_strata, "nontrivial": algo_nontrivial,
                 "rule": "each mathematical input is presented three ways (vertex renaming that changes the sorted order, permuted vertex/edge/degree lists, swapped endpoints) and run under 3 (quick) / 16 (thorough) PYTHONHASHSEED values: EWD, is_winnable, q_reduction, rank, gonality, linear_equivalence; all answers must coincide with the model's single answer and with each other (reduced divisor renamed accordingly when the minimum is unique; never seed-dependent)",
+                "theorems": []}
+
+
+# ---- C10
+def c10_generate(rng, tier):
+    a = genhist.gen_config(rng, count(tier, 150, 1500), nmax=count(tier, 5, 6))
+    a += genhist.gen_parking(rng, count(tier, 400, 5000))
+    # every sequence over [0..n+1]^n for small n, with and without explicit n
+    import itertools as it
+    for n in range(0, count(tier, 4, 5)):
+        for seq in it.product(range(0, n + 2), repeat=n):
+            a.append({"op": "parking", "seq": list(seq), "n": None})
+            if tier == "thorough" or rng.random() < 0.2:
+                a.append({"op": "parking", "seq": list(seq), "n": n})
+    for m in range(1, count(tier, 4, 5)):
+        a.append({"op": "kn_parking", "m": m})
+    for _ in range(count(tier, 25, 200)):
+        g, E = gen.gen_graph(rng, 2, count(tier, 4, 5))
+        if sum(E.values()) > 9:
+            continue
+        s = dict(g)
+        s.update(op="superstable_count", q=rng.randrange(g["n"]))
+        a.append(s)
+    return tag_cmp(a, None)
+
+
+def c10_judge(rec):
+    fails = []
+    for hs, p in rec["py"].items():
+        if not isinstance(p, dict):
+            continue
+        if rec["scn"]["op"] == "superstable_count" and p.get("count") != p.get("det"):
+            fails.append(f"{p.get('count')} superstable configurations but the reduced Laplacian has determinant {p.get('det')}")
+        if rec["scn"]["op"] == "kn_parking":
+            m = rec["scn"]["m"]
+            if not p.get("agree") or p.get("superstables") != (m + 1) ** (m - 1):
+                fails.append(f"K_{m+1}: superstables {p.get('superstables')}, parking functions {p.get('parking')}, expected {(m+1)**(m-1)}; agree={p.get('agree')}")
+        if rec["scn"]["op"] == "parking_gen" and isinstance(p.get("list"), list) and rec["scn"]["n"] >= 1:
+            n = rec["scn"]["n"]
+            if len(p["list"]) != (n + 1) ** (n - 1) or p.get("count") != (n + 1) ** (n - 1) or len({tuple(x) for x in p["list"]}) != len(p["list"]):
+                fails.append(f"n={n}: generated {len(p['list'])} (distinct {len({tuple(x) for x in p['list']})}), counted {p.get('count')}, expected {(n+1)**(n-1)}")
+    return fails
+
+
+NONTRIVIAL_RULE["C10"] = "non-trivial: configuration batches on n>=3 vertices; parking sequences of length>=2; every superstable-count / K_n case"
+PROPS["C10"] = {"generate": c10_generate, "judge": c10_judge,
+                "strata": lambda rec: [f"op={rec['scn']['op']}", f"n={rec['scn'].get('n')}"],
+                "nontrivial": lambda rec: (rec["scn"]["op"] == "config" and rec["scn"]["n"] >= 3) or (rec["scn"]["op"] == "parking" and len(rec["scn"]["seq"]) >= 2) or rec["scn"]["op"] in ("superstable_count", "kn_parking", "parking_gen"),
+                "rule": "configurations on generated multigraphs with every subset of V-q as candidate firing set (out-degree, legality, superstability, comparison operators against equal copies / other graphs / other sinks); superstable count vs exact determinant of the library's reduced Laplacian; K_(n+1) superstables vs parking functions; all integer sequences over [0..n+1]^n with and without explicit n; generated lists and counts",
+                "theorems": ["legal_iff", "superstable_iff", "superstable_iff_burn_all", "cmp_is_pointwise_order", "cmp_incomparable", "parking_length_mismatch", "parking_range", "generated_are_parking", "parking_count_small"]}
+
+# ---- C11
+simple("C11", genhist.gen_orient_hist, 500, 8000,
+       "orientation histories: constructor (none/partial/full/acyclic, ~7% invalid) then up to 25/80 set_orientation with all three states in both endpoint orders (incl. re-orienting and un-orienting), queries, check_fullness, reverse, divisor, canonical_divisor (~20% invalid); observables after every step: every edge state from both endpoints, in/out counters, endpoint agreement, fullness flags",
+       [], "non-trivial: >=3 operations, accepted constructor", maxops=(25, 80))
+PROPS["C11"]["strata"] = lambda rec: hist_strata(rec) + [f"init={rec['scn'].get('_mode')}"]
+
+# ---- C20
+def c20_generate(rng, tier):
+    k = count(tier, 150, 2500)
+    a = genhist.gen_graph_hist(rng, k, p_bad=0.4)
+    a += genhist.gen_div_hist(rng, k, p_bad=0.4)
+    a += genhist.gen_orient_hist(rng, k, p_bad=0.4)
+    a += genhist.gen_lap(rng, k // 2)
+    a += genhist.gen_config(rng, k // 3, nmax=4)
+    a += genhist.gen_play(rng, k // 2)
+    a += genhist.gen_div_arith(rng, k // 2)
+    return tag_cmp(a, None)
+
+
+NONTRIVIAL_RULE["C20"] = "non-trivial: a history/batch in which at least one request was refused"
+PROPS["C20"] = {"generate": c20_generate, "strata": hist_strata,
+                "nontrivial": lambda rec: "ERR" in json.dumps(rec["lean"]) or '"ok": false' in json.dumps(rec["lean"]),
+                "rule": "histories of graphs, divisors, configurations, scripts and orientations with ~40% invalid requests of every listed kind (unknown vertex, non-edge, sink in a firing set, duplicate entry, loop, non-positive amount/multiplicity, mismatched vertex sets, partial orientation where a full one is needed), mixed valid/invalid sets, placed anywhere; the digest of the target object and of the graph/divisor it refers to is compared after every request",
                 "theorems": []}
